@@ -127,7 +127,10 @@ pub fn profile_for(id: &str, rng: &mut Rng) -> Profile {
             p.constraints = rng.chance(50);
         }
         "C16" => {
-            p.w_failing = 25;
+            p.w_failing = 10;
+            p.w_chaos = rng.range(25, 60) as u32;
+            p.w_check = 10;
+            p.guards.extend(crate::chaos::guards());
         }
         "C01" | "C02" | "C08" => {
             p.min_events = 4;
